@@ -13,6 +13,7 @@ DAV_ASSUMPTIONS = [
     "the served tree contains no symbolic links and the server process may read and write all of it",
     "filepath.Separator is '/' (the platform checked)",
     "the root directory's host path is clean and absolute",
+    "the verdict on an observation (Rfc4918.spec_ok_reported) demands what the statements say and no more: announced entity tags are compared with what LocalFileSystem.Stat reports (their format is not prescribed), any 4xx is accepted where source and destination are properly nested and for an unreadable PROPFIND/PROPPATCH body, any status from 400 on for a PUT whose body breaks off, and a collection's href may end in a slash; the agreement with the model (which fixes all of these) is judged separately and exactly",
     "request and Destination paths reach the model as r.URL.Path / url.Parse(...).Path computed by net/http and net/url (exercised through http.ReadRequest in the traversal stage)",
 ]
 
